@@ -174,7 +174,9 @@ def bytrack_inputs(draw):
             edges.append([p[0], nid])
             children[p[0]] = children.get(p[0], 0) + 1
         nodes.append([nid, t, lab])
-    return {"spatial": list(spatial), "frames": frames, "nodes": nodes, "edges": edges}
+    # nodes may carry attributes left over from another solution (e.g. old track ids)
+    stale = [draw(st.integers(1, 3)) for _ in nodes] if draw(st.booleans()) else None
+    return {"spatial": list(spatial), "frames": frames, "nodes": nodes, "edges": edges, "stale_track_ids": stale}
 
 
 def probe_bytrack(inp) -> ProbeResult:
@@ -184,8 +186,13 @@ def probe_bytrack(inp) -> ProbeResult:
     spatial = tuple(inp["spatial"])
     seg = np.array(inp["frames"], dtype=np.uint32).reshape((-1, *spatial))
     g = nx.DiGraph()
-    for n, t, lab in inp["nodes"]:
+    for i, (n, t, lab) in enumerate(inp["nodes"]):
         g.add_node(n, time=t, seg_id=lab)
+        if inp.get("stale_track_ids"):
+            g.nodes[n]["track_id"] = inp["stale_track_ids"][i]
+            g.nodes[n]["tracklet_id"] = inp["stale_track_ids"][i]
+    if inp.get("stale_track_ids") and inp["nodes"]:
+        res.tags.append("bytrack:stale_id_attributes")
     g.add_edges_from([tuple(e) for e in inp["edges"]])
     src = seg.copy()
     try:
